@@ -109,8 +109,16 @@ pub fn slice_as_ptr<T>(s: &[T]) -> (r: Ptr)
 { unimplemented!() }
 
 // ------------------------------------------------------------------ error type (declaration only)
+/// std::io::ErrorKind / std::io::Error as far as the code looks at them: an error has a kind
+#[derive(PartialEq, Eq, Clone, Copy, Structural, Debug)]
+pub enum ErrorKind { Interrupted, WouldBlock, UnexpectedEof, WriteZero, Other }
 #[derive(Debug)]
-pub struct IoError { pub code: i32 }
+pub struct IoError { pub code: i32, pub k: ErrorKind }
+impl IoError {
+    pub fn kind(&self) -> (r: ErrorKind) ensures r == self.k { self.k }
+}
+/// "this result is an interruption" (EINTR): the only outcome a transfer may retry
+pub open spec fn is_eintr<T>(r: Result<T>) -> bool { r matches Err(Error::IOError(e)) && e.k == ErrorKind::Interrupted }
 #[derive(Debug)]
 pub enum Error {
     OutOfBounds { addr: usize },
@@ -566,16 +574,25 @@ pub trait ReadVolatile: Sized {
         requires old(buf).wf(), // [C01]
             old(self).accepts(*old(buf)), // [C01,C04,C03,C14]
         ensures *final(buf) == *old(buf),
-            r matches Ok(n) ==> final(self).pos() == old(self).pos() + n;
+            r matches Ok(n) ==> final(self).pos() == old(self).pos() + n,
+            // a call that reports an error has delivered nothing (POSIX: EINTR only before any transfer)
+            r is Err ==> final(self).pos() == old(self).pos(),
+            // licence to repeat the identical call: only after an interruption
+            final(self).retry_ok() == is_eintr(r);
+    spec fn retry_ok(&self) -> bool;
 
     // The exact loop.  Extraction drops the retry_eintr! wrapper (see above).  Proved for every stream
     // behaviour (any sequence of short counts, zero, errors, even counts larger than the window): each
     // call is handed exactly the not-yet-filled rest of `buf` -- the window starts where the bytes
     // delivered so far end -- Ok(()) is returned precisely when the whole buffer was filled, an empty
     // buffer makes no call at all, and the loop terminates.
+#[verifier::loop_isolation(false)]
+#[verifier::allow_complex_invariants]
+#[verifier::exec_allows_no_decreases_clause] // the retry loop runs as long as the stream keeps reporting EINTR
 //@fn src/io.rs :: pub trait ReadVolatile :: read_exact_volatile :: tags=C13,C14,C18,C07,C01
+//@sub crate::VolatileMemoryError:: => Error::
+//@sub std::io::ErrorKind:: => ErrorKind::
 //@sub Result<\(\), VolatileMemoryError> => Result<()>
-//@sub (?m)retry_eintr!\((.*)\)\) \{$ => \1) {
 //@sub (?s)VolatileMemoryError::IOError\(std::io::Error::new\(\s*ErrorKind::UnexpectedEof,\s*"failed to fill whole buffer",\s*\)\) => Error::IOError(io_error_new())
 //@spec
     requires old(buf).wf(),
@@ -592,6 +609,25 @@ pub trait ReadVolatile: Sized {
                 forall|st: Self, s: VolatileSlice<B>| #![trigger st.accepts(s)] s.is_sub(old(buf), st.pos() - old(self).pos(), old(buf).size - (st.pos() - old(self).pos())) ==> st.accepts(s),
             decreases partial_buf.size,
 //@end
+//@loop 2
+                // R15: the expansion of retry_eintr!( self.read_volatile(&mut partial_buf) )
+                invariant
+                    *buf == *old(buf), buf.wf(), partial_buf.size > 0, partial_buf.size == size0, self.pos() == pos0,
+                    0 <= self.pos() - old(self).pos() <= buf.size,
+                    partial_buf.is_sub(buf, pos0 - old(self).pos(), buf.size - (pos0 - old(self).pos())),
+                ensures
+                    !is_eintr(__retry_eintr_r), // [C14]
+                    __retry_eintr_r matches Ok(n) ==> self.pos() == pos0 + n,
+                    __retry_eintr_r is Err ==> self.pos() == pos0,
+                    partial_buf.size == size0, partial_buf.is_sub(buf, pos0 - old(self).pos(), buf.size - (pos0 - old(self).pos())),
+                    *buf == *old(buf), buf.wf(),
+//@end
+//@before 1 /match \{ let __retry_eintr_r/
+            let ghost size0 = partial_buf.size; let ghost pos0 = self.pos();
+//@end
+//@before 1 /continue;/
+                        assert(self.retry_ok()); // [C14]
+//@end
 //@canary restart_from_buf :: partial_buf = partial_buf\.offset\(bytes_read\) => partial_buf = buf.offset(bytes_read)
 //@endfn
 }
@@ -601,11 +637,18 @@ pub trait WriteVolatile: Sized {
     fn write_volatile<B: BitmapSlice>(&mut self, buf: &VolatileSlice<B>) -> (r: Result<usize>)
         requires buf.wf(), // [C01]
             old(self).accepts(*buf), // [C01,C04,C03,C14]
-        ensures r matches Ok(n) ==> final(self).pos() == old(self).pos() + n;
+        ensures r matches Ok(n) ==> final(self).pos() == old(self).pos() + n,
+            r is Err ==> final(self).pos() == old(self).pos(),
+            final(self).retry_ok() == is_eintr(r);
+    spec fn retry_ok(&self) -> bool;
 
+#[verifier::loop_isolation(false)]
+#[verifier::allow_complex_invariants]
+#[verifier::exec_allows_no_decreases_clause] // the retry loop runs as long as the stream keeps reporting EINTR
 //@fn src/io.rs :: pub trait WriteVolatile :: write_all_volatile :: tags=C13,C14,C18,C07,C01
+//@sub crate::VolatileMemoryError:: => Error::
+//@sub std::io::ErrorKind:: => ErrorKind::
 //@sub Result<\(\), VolatileMemoryError> => Result<()>
-//@sub (?m)retry_eintr!\((.*)\)\) \{$ => \1) {
 //@sub (?s)VolatileMemoryError::IOError\(std::io::Error::new\(\s*ErrorKind::WriteZero,\s*"failed to write whole buffer",\s*\)\) => Error::IOError(io_error_new())
 //@spec
     requires buf.wf(),
@@ -621,6 +664,20 @@ pub trait WriteVolatile: Sized {
                 partial_buf.is_sub(buf, self.pos() - old(self).pos(), buf.size - (self.pos() - old(self).pos())),
                 forall|st: Self, s: VolatileSlice<B>| #![trigger st.accepts(s)] s.is_sub(buf, st.pos() - old(self).pos(), buf.size - (st.pos() - old(self).pos())) ==> st.accepts(s),
             decreases partial_buf.size,
+//@end
+//@loop 2
+                // R15: the expansion of retry_eintr!( self.write_volatile(&partial_buf) )
+                invariant
+                    buf.wf(), partial_buf.size > 0,
+                    0 <= self.pos() - old(self).pos() <= buf.size,
+                    partial_buf.is_sub(buf, self.pos() - old(self).pos(), buf.size - (self.pos() - old(self).pos())),
+                ensures
+                    !is_eintr(__retry_eintr_r), // [C14]
+                    __retry_eintr_r matches Ok(n) ==> partial_buf.is_sub(buf, self.pos() - n - old(self).pos(), buf.size - (self.pos() - n - old(self).pos())),
+                    buf.wf(),
+//@end
+//@before 1 /continue;/
+                        assert(self.retry_ok()); // [C14]
 //@end
 //@endfn
 }
@@ -681,6 +738,7 @@ pub fn last_os_error() -> IoError { unimplemented!() }
 impl ReadVolatile for &[u8] {
     open spec fn accepts<B: BitmapSlice>(&self, s: VolatileSlice<B>) -> bool { true }
     open spec fn pos(&self) -> int { -(self@.len() as int) }
+    open spec fn retry_ok(&self) -> bool { false }
 //@fn src/io.rs :: impl ReadVolatile for &\[u8\] :: read_volatile :: tags=C04,C07,C13
 //@sub Result<usize, VolatileMemoryError> => Result<usize>
 //@sub self\.as_ptr\(\) => slice_as_ptr(*self)
@@ -694,6 +752,7 @@ impl ReadVolatile for &[u8] {
 impl WriteVolatile for &mut [u8] {
     open spec fn accepts<B: BitmapSlice>(&self, s: VolatileSlice<B>) -> bool { true }
     open spec fn pos(&self) -> int { -(self@.len() as int) }
+    open spec fn retry_ok(&self) -> bool { false }
     // body uses std::mem::take + split_at_mut (reborrow juggling Verus has no spec for): verified by
     // Kani (K-io, C13) against std's own Write for &mut [u8]; here the same contract is assumed.
     #[verifier::external_body]
@@ -740,21 +799,53 @@ impl<B: BitmapSlice> VolatileSlice<'_, B> {
 // identical call while it reports EINTR -- C14's subject, decided by the native enumeration): what is
 // proved here is which window of the slice the stream is handed, for every addr / count, and that the
 // `unwrap()` cannot fire.
+#[verifier::loop_isolation(false)]
+#[verifier::allow_complex_invariants]
+#[verifier::exec_allows_no_decreases_clause] // the retry loop runs as long as the stream keeps reporting EINTR
 //@fn src/volatile_memory.rs :: impl<B: BitmapSlice> Bytes<usize> for VolatileSlice<'_, B> :: read_volatile_from :: tags=C01,C04,C07,C18
-//@sub (?m)retry_eintr!\((.*)\)\s*$ => \1
+//@sub crate::VolatileMemoryError:: => Error::
+//@sub std::io::ErrorKind:: => ErrorKind::
 //@spec
     requires self.wf(),
-        forall|s: VolatileSlice<B>| s.is_sub(self, addr as int, (if count <= self.size - addr { count as int } else { self.size - addr })) ==> old(src).accepts(s), // [C01,C04,C03]
+        forall|st: F, s: VolatileSlice<B>| #![trigger st.accepts(s)] s.is_sub(self, addr as int, (if count <= self.size - addr { count as int } else { self.size - addr })) ==> st.accepts(s), // [C01,C04,C03]
     ensures addr > self.size ==> r is Err, // [C01,C04]
+        addr <= self.size ==> !is_eintr(r), // [C14]
+        r matches Ok(n) ==> final(src).pos() == old(src).pos() + n, // [C14]
 //@end
+//@loop 1
+            // R15: the expansion of retry_eintr!( .. ): every repetition is the identical call, made only after EINTR
+            invariant src.pos() == old(src).pos(), slice.is_sub(self, addr as int, (if count <= self.size - addr { count as int } else { self.size - addr })),
+            ensures !is_eintr(__retry_eintr_r), // [C14]
+                __retry_eintr_r matches Ok(n) ==> src.pos() == old(src).pos() + n,
+//@end
+//@before 1 /continue;/
+                    assert(src.retry_ok()); // [C14]
+//@end
+//@canary no_retry :: continue; => {}
+//@canary retry_everything :: if err\.kind\(\) == ErrorKind::Interrupted => if true
 //@canary whole_rest :: vmin\(slice\.len\(\), count\) => slice.len()
 //@endfn
+#[verifier::loop_isolation(false)]
+#[verifier::allow_complex_invariants]
+#[verifier::exec_allows_no_decreases_clause] // the retry loop runs as long as the stream keeps reporting EINTR
 //@fn src/volatile_memory.rs :: impl<B: BitmapSlice> Bytes<usize> for VolatileSlice<'_, B> :: write_volatile_to :: tags=C01,C04,C07,C18
-//@sub (?m)retry_eintr!\((.*)\)\s*$ => \1
+//@sub crate::VolatileMemoryError:: => Error::
+//@sub std::io::ErrorKind:: => ErrorKind::
 //@spec
     requires self.wf(),
-        forall|s: VolatileSlice<B>| s.is_sub(self, addr as int, (if count <= self.size - addr { count as int } else { self.size - addr })) ==> old(dst).accepts(s), // [C01,C04,C03]
+        forall|st: F, s: VolatileSlice<B>| #![trigger st.accepts(s)] s.is_sub(self, addr as int, (if count <= self.size - addr { count as int } else { self.size - addr })) ==> st.accepts(s), // [C01,C04,C03]
     ensures addr > self.size ==> r is Err, // [C01,C04]
+        addr <= self.size ==> !is_eintr(r), // [C14]
+        r matches Ok(n) ==> final(dst).pos() == old(dst).pos() + n, // [C14]
+//@end
+//@loop 1
+            // R15: the expansion of retry_eintr!( .. ): every repetition is the identical call, made only after EINTR
+            invariant dst.pos() == old(dst).pos(), slice.wf(),
+            ensures !is_eintr(__retry_eintr_r), // [C14]
+                __retry_eintr_r matches Ok(n) ==> dst.pos() == old(dst).pos() + n,
+//@end
+//@before 1 /continue;/
+                    assert(dst.retry_ok()); // [C14]
 //@end
 //@canary whole_rest :: vmin\(slice\.len\(\), count\) => slice.len()
 //@endfn
